@@ -194,6 +194,13 @@ def check(spec, ctx):
         results.append(res)
     ctx.case(spec, nontrivial=nontrivial, labels=labels, out={"type": results[0].type})
 
+    # omitted buffers mean 0
+    if scale_ratio(spec) < 1e6 or kind in ("TimeStamp", "TimeInterval", "BoundingBox"):
+        try:
+            if geometry.buffer_geometry(g, time_buffer=tb) != geometry.buffer_geometry(g, time_buffer=tb, freq_buffer=0) or geometry.buffer_geometry(g, freq_buffer=fb) != geometry.buffer_geometry(g, time_buffer=0, freq_buffer=fb):
+                ctx.fail("an omitted buffer is not treated as 0", spec, None, None, kind="defaults")
+        except Exception:
+            pass  # zero buffers fall into finding F16 for shapely-buffered types
     shp_o = to_shp(kind, coords)
     if kind in ("Polygon", "MultiPolygon") and not shp_o.is_valid:
         raise ValueError("malformed spec: polygon inputs must be shapely-valid (stated assumption)")
